@@ -235,6 +235,62 @@ fn main() {
                     rep.fail("assembled_cert_verify_mismatch", format!("certificate assembled incrementally: verify differs from the specification ({fv})"), case.clone());
                 }
             }
+            "tadd" => {
+                let nested = {
+                    let vote = vprev("ok");
+                    let signers: Vec<usize> = (1..=n).collect();
+                    CommitQC { message: vote.clone(), signers: bitmap(&signers, n), signature: agg_commit(&vote, &signers, "ok") }
+                };
+                let tm1 = ReplicaTimeout { view: view_of(3, "ok"), high_vote: None, high_qc: None };
+                let msg_of = |k: &str| match k {
+                    "ok2" => ReplicaTimeout { view: view_of(3, "ok"), high_vote: Some(v1("ok")), high_qc: Some(nested.clone()) },
+                    "view" => ReplicaTimeout { view: view_of(4, "ok"), high_vote: None, high_qc: None },
+                    "badcontent" => ReplicaTimeout { view: view_of(3, "ok"), high_vote: Some(v1("genesis")), high_qc: None },
+                    _ => tm1.clone(),
+                };
+                let mut qc = TimeoutQC::new(view_of(3, "ok"));
+                let seq = case["seq"].as_array().unwrap();
+                let res = case["res"].as_array().unwrap();
+                let mut bad = None;
+                for (i, st) in seq.iter().enumerate() {
+                    let from = st["from"].as_u64().unwrap() as usize;
+                    let k = st["k"].as_str().unwrap();
+                    let body = msg_of(k);
+                    let mut m: validator::Signed<ReplicaTimeout> = f.sign(if k == "nonmember" { 0 } else { from }, ChonkyMsg::ReplicaTimeout(body)).cast().unwrap();
+                    if k == "badsig" {
+                        m.sig = f.commit(from, vprev("ok")).sig;
+                    }
+                    let got = catch(|| qc.add(&m, g, EPOCH, sch).is_ok());
+                    let want = res[i].as_bool().unwrap();
+                    if got != Ok(want) {
+                        bad = Some(format!("TimeoutQC::add #{} ({k} from {from}) = {got:?}, specification says {want}", i + 1));
+                        break;
+                    }
+                }
+                if let Some(b) = bad {
+                    rep.fail("tadd_mismatch", b, case.clone());
+                    continue;
+                }
+                if qc.map.len() != case["ngroups"].as_u64().unwrap() as usize {
+                    // implementation-shaped detail (drift); the property-level verdict is the final verify below
+                    rep.count("drift_tadd_groups");
+                }
+                // completed by valid votes of everybody who has not signed yet: each must be accepted, the result must verify as specified
+                let have = setof(&case["signers"]);
+                for v in 1..=n {
+                    if have.contains(&v) {
+                        continue;
+                    }
+                    let m: validator::Signed<ReplicaTimeout> = f.sign(v, ChonkyMsg::ReplicaTimeout(tm1.clone())).cast().unwrap();
+                    if catch(|| qc.add(&m, g, EPOCH, sch).is_ok()) != Ok(true) {
+                        rep.fail("tadd_valid_vote_refused", format!("a valid vote of validator {v} was refused during completion"), case.clone());
+                    }
+                }
+                let fv = case["final_valid"].as_bool().unwrap();
+                if catch(|| qc.verify(g, EPOCH, sch).is_ok()) != Ok(fv) {
+                    rep.fail("assembled_cert_verify_mismatch", format!("timeout certificate assembled incrementally from valid votes reaching the quorum: verify differs from the specification ({fv})"), case.clone());
+                }
+            }
             _ => {}
         }
         if rep.evaluations % 997 == 1 {
